@@ -22,6 +22,11 @@ class C17(LoopCheck):
         for n in ([2] if tier == "quick" else [2, 3]):
             out.append({"name": f"importance-N{n}", "kind": "importance", "flow": "fn", "N": n, "d": 2, "D": 1})
             out.append({"name": f"convert-N{n}", "kind": "convert", "flow": "fn", "N": n, "d": 2, "D": 1})
+        # the plain MCMC samplers (flow-initialised ensemble / pCN chains) over fake kernels:
+        # every likelihood call -- initial population, kernel target, evidence draws of
+        # Emcee, final re-evaluation -- sees the prior of its points and is counted
+        for smp in ("Emcee", "MiniPCN"):
+            out.append({"name": f"mcmc-{smp}-N2", "kind": "mcmc", "flow": "fn", "sampler": smp, "N": 2, "d": 1, "D": 1})
         # FP sort: the prior may be -inf / NaN per point, so the multi-round
         # initial draw (rejection, concatenation, trimming) and the
         # all-points-outside-the-prior case of the kernel targets are reachable
@@ -31,7 +36,7 @@ class C17(LoopCheck):
         return out
 
     def ctx_for(self, cfg, seed):
-        if cfg.get("kind") in ("importance", "convert"):
+        if cfg.get("kind") in ("importance", "convert", "mcmc"):
             return sx.Ctx(self.pid, D=1, seed=seed, timeout_ms=60000)
         if cfg.get("kind") in ("initial_fp", "fp_target"):
             return sx.Ctx(self.pid, seed=seed, timeout_ms=120000, sort="F", fp_bits=64)
@@ -84,7 +89,72 @@ class C17(LoopCheck):
             return self.h_importance(cfg)
         if cfg.get("kind") == "convert":
             return self.h_convert(cfg)
+        if cfg.get("kind") == "mcmc":
+            return self.h_mcmc(cfg)
         return super().harness(cfg)
+
+    def h_mcmc(self, cfg):
+        import sys
+        import types
+
+        import numpy as np
+
+        n, d, sname = cfg["N"], cfg["d"], cfg["sampler"]
+
+        def h(ctx):
+            import aspire.samplers.mcmc as M
+
+            fns = UserFns(d)
+            tgt = Target(ctx, d, fns)
+            flow = FlowStub(ctx, d, fns)
+            calls = {"kernel_targets": 0}
+
+            class FakeEnsemble:
+                def __init__(self, nwalkers, ndim, log_prob_fn=None, vectorize=False, **kw):
+                    self.nw, self.nd, self.f = nwalkers, ndim, log_prob_fn
+
+                def run_mcmc(self, z0, nsteps=None, **kw):
+                    self.f(z0)
+                    self.f(sx.sym("prop", (self.nw, self.nd)))
+                    calls["kernel_targets"] += 2
+
+                def get_chain(self, flat=False, discard=0):
+                    return sx.sym("chain", (self.nw, self.nd))
+
+            class _H:
+                acceptance_rate = [0.5]
+
+            class FakePCN:
+                def __init__(self, log_prob_fn=None, step_fn=None, rng=None, dims=None, target_acceptance_rate=None, **kw):
+                    self.f, self.nd = log_prob_fn, dims
+
+                def sample(self, z0, n_steps=None):
+                    self.f(z0)
+                    calls["kernel_targets"] += 1
+                    m = sx.asarray(z0).shape[0]
+                    return sx.sym("chain", (2, m, self.nd)), _H()
+
+            old = {k: sys.modules.get(k) for k in ("emcee", "minipcn")}
+            e = types.ModuleType("emcee")
+            e.EnsembleSampler = FakeEnsemble
+            p = types.ModuleType("minipcn")
+            p.Sampler = FakePCN
+            sys.modules["emcee"], sys.modules["minipcn"] = e, p
+            try:
+                S = getattr(M, sname)
+                smp = S(log_likelihood=tgt.log_likelihood, log_prior=tgt.log_prior, dims=d, prior_flow=flow, xp=sx, parameters=[f"p{k}" for k in range(d)])
+                out = smp.sample(n, nsteps=1) if sname == "Emcee" else smp.sample(n, n_steps=1, rng=object())
+            finally:
+                for k, v in old.items():
+                    if v is None:
+                        sys.modules.pop(k, None)
+                    else:
+                        sys.modules[k] = v
+            ctx.prove(calls["kernel_targets"] >= 1, "c17/mcmc_kernel_ran")
+            ctx.prove(smp.n_likelihood_evaluations == tgt.n_points, "c17/mcmc_count", detail={"sampler": sname, "reported": smp.n_likelihood_evaluations, "asked": tgt.n_points})
+            check_population(ctx, fns, out, "c17/mcmc_fields", need_q=False)
+
+        return h
 
     def h_importance(self, cfg):
         from aspire.samplers.importance import ImportanceSampler
@@ -135,7 +205,7 @@ class C17(LoopCheck):
         if fl["cfg"].get("kind") in ("initial_fp", "fp_target"):
             env = {k: v for k, v in fl["env"].items() if k != "__purified__"}
             return {"cfg": fl["cfg"], "label": fl["label"], "detail": fl.get("detail"), "env": env}
-        if fl["cfg"].get("kind") in ("importance", "convert"):
+        if fl["cfg"].get("kind") in ("importance", "convert", "mcmc"):
             return {"cfg": fl["cfg"], "label": fl["label"], "detail": fl.get("detail"), "env": {}}
         return super().to_cex(fl)
 
@@ -146,7 +216,88 @@ class C17(LoopCheck):
             return replay_fp_target(cex)
         if cex["cfg"].get("kind") in ("importance", "convert"):
             return replay_fn(cex)
+        if cex["cfg"].get("kind") == "mcmc":
+            return replay_mcmc(cex)
         return super().replay(cex)
+
+
+def replay_mcmc(cex):
+    """The real Emcee / MiniPCN samplers on NumPy over concrete fake kernels."""
+    import sys
+    import types
+
+    import numpy as np
+
+    import aspire.samplers.mcmc as M
+
+    cfg = cex["cfg"]
+    n, d, sname = cfg["N"], cfg["d"], cfg["sampler"]
+    rs = np.random.default_rng(4)
+    bad = []
+    asked = {"n": 0}
+    Lf = lambda x: -0.5 * np.sum((np.asarray(x) - 0.3) ** 2, axis=-1)  # noqa: E731
+    Pf = lambda x: -0.7 * np.sum(np.abs(np.asarray(x)), axis=-1)  # noqa: E731
+    Qf = lambda x: -0.25 * np.sum(np.asarray(x) ** 2, axis=-1) - 1.0  # noqa: E731
+
+    def L(s):
+        asked["n"] += len(s.x)
+        if s.log_prior is None or len(np.asarray(s.log_prior)) != len(s.x) or not np.allclose(np.asarray(s.log_prior, float), Pf(s.x)):
+            bad.append("C17: likelihood called without the prior of these points attached")
+        return Lf(s.x)
+
+    class Flow:
+        xp = np
+
+        def sample_and_log_prob(self, m):
+            x = rs.normal(size=(m, d))
+            return x, Qf(x)
+
+        def log_prob(self, x):
+            return Qf(x)
+
+    class FakeEnsemble:
+        def __init__(self, nwalkers, ndim, log_prob_fn=None, vectorize=False, **kw):
+            self.nw, self.nd, self.f = nwalkers, ndim, log_prob_fn
+
+        def run_mcmc(self, z0, nsteps=None, **kw):
+            self.f(z0)
+            self.f(rs.normal(size=(self.nw, self.nd)))
+
+        def get_chain(self, flat=False, discard=0):
+            return rs.normal(size=(self.nw, self.nd))
+
+    class _H:
+        acceptance_rate = [0.5]
+
+    class FakePCN:
+        def __init__(self, log_prob_fn=None, step_fn=None, rng=None, dims=None, target_acceptance_rate=None, **kw):
+            self.f, self.nd = log_prob_fn, dims
+
+        def sample(self, z0, n_steps=None):
+            self.f(z0)
+            return rs.normal(size=(2, len(z0), self.nd)), _H()
+
+    old = {k: sys.modules.get(k) for k in ("emcee", "minipcn")}
+    e = types.ModuleType("emcee")
+    e.EnsembleSampler = FakeEnsemble
+    p = types.ModuleType("minipcn")
+    p.Sampler = FakePCN
+    sys.modules["emcee"], sys.modules["minipcn"] = e, p
+    try:
+        with np.errstate(all="ignore"):
+            smp = getattr(M, sname)(log_likelihood=L, log_prior=lambda s: Pf(s.x), dims=d, prior_flow=Flow(), xp=np, parameters=[f"p{k}" for k in range(d)])
+            out = smp.sample(n, nsteps=1) if sname == "Emcee" else smp.sample(n, n_steps=1, rng=object())
+    finally:
+        for k, v in old.items():
+            if v is None:
+                sys.modules.pop(k, None)
+            else:
+                sys.modules[k] = v
+    if smp.n_likelihood_evaluations != asked["n"]:
+        bad.append(f"C17: {sname}: n_likelihood_evaluations={smp.n_likelihood_evaluations}, the likelihood was asked for {asked['n']} points")
+    if not np.allclose(np.asarray(out.log_likelihood, float), Lf(out.x)) or not np.allclose(np.asarray(out.log_prior, float), Pf(out.x)):
+        bad.append("C17: returned densities do not belong to the returned points")
+    return (len(bad) > 0, "; ".join(bad[:3]) if bad else "all clauses hold")
 
 
 def replay_fn(cex):
